@@ -333,3 +333,124 @@ func VerifH_C18_flush_drain_pairing() {
 	}
 	verif.Assert(n >= 1, "the first message was handed over")
 }
+
+// VerifH_C01_concurrent_send: a second goroutine sends on the same session while the first
+// goroutine's send is anywhere inside its hand-off (debug-log yield points, and the
+// packetCreate / flush / drain listeners): every accepted message reaches the transport
+// exactly once, and each sender's own messages stay in its call order.
+func VerifH_C01_concurrent_send() {
+	tn := [2]string{transports.POLLING, transports.WEBSOCKET}[verif.Choose(2)]
+	w := newSockWorld(tn, "4")
+	w.preFlush = func() { verif.Yield("flush listener") }
+	w.preDrain = func() { verif.Yield("drain listener") }
+	w.sock.On("packetCreate", func(...any) { verif.Yield("packetCreate listener") })
+	var m2 io.Reader
+	verif.Event("another goroutine sends on the same session", func() {
+		m2 = types.NewStringBufferString("m2")
+		go w.sock.Send(m2, nil, nil)
+		verif.Settle() // it runs until it blocks or finishes
+	})
+	if verif.Bool() {
+		w.send(0, false) // the transport is busy with an earlier batch
+	}
+	verif.InjectBudget(1)
+	m1 := w.send(1, false)
+	verif.InjectBudget(0)
+	verif.Settle()
+	w.ft.complete()
+	verif.Settle()
+	m3 := w.send(3, false)
+	for i := 0; i < 3; i++ {
+		w.ft.complete()
+		verif.Settle()
+	}
+	n1, n2, n3, i1, i3 := 0, 0, 0, -1, -1
+	for i, p := range w.ft.flat() {
+		switch p.Data {
+		case m1:
+			n1++
+			i1 = i
+		case m3:
+			n3++
+			i3 = i
+		default:
+			if m2 != nil && p.Data == m2 {
+				n2++
+			}
+		}
+	}
+	verif.Assert(n1 == 1 && n3 == 1, "each message of the first sender reaches the transport exactly once")
+	verif.Assert(i1 < i3, "in its call order")
+	if m2 != nil {
+		verif.Assert(n2 == 1, "the concurrent sender's message reaches the transport exactly once")
+	}
+	verif.Assert(w.sock.ReadyState() == "open", "the session stays open")
+}
+
+// VerifH_C18_callback_after_own_flush: listeners that send re-entrantly (from packetCreate,
+// from a send callback, from a message listener) while the transport is writable or busy:
+// a send callback never runs before the flush event of the batch that contains its own
+// packet, and runs at most once.
+func VerifH_C18_callback_after_own_flush() {
+	w := newSockWorld(transports.WEBSOCKET, "4")
+	datas := map[int]io.Reader{}
+	where := verif.Choose(3)
+	innerCb := verif.Bool()
+	fired := true // armed just before the outer send
+	inner := func(...any) {
+		if fired {
+			return
+		}
+		fired = true
+		datas[2] = w.send(2, innerCb)
+	}
+	var outerCb SendCallback
+	switch where {
+	case 0:
+		w.sock.On("packetCreate", inner)
+	case 1:
+		outerCb = func(transports.Transport) {
+			w.log = append(w.log, logEnt{kind: "cb", id: 1})
+			inner()
+		}
+	case 2:
+		w.sock.On("message", inner)
+	}
+	if verif.Bool() {
+		datas[0] = w.send(0, false) // busy transport
+	}
+	fired = false
+	if where == 1 {
+		d := types.NewStringBufferString("m")
+		datas[1] = d
+		w.sock.Send(d, nil, outerCb)
+	} else {
+		datas[1] = w.send(1, true)
+	}
+	for i := 0; i < 3; i++ {
+		w.ft.complete()
+		if i == 0 && where == 2 {
+			w.ft.OnPacket(&packet.Packet{Type: packet.MESSAGE, Data: types.NewStringBufferString("in")})
+		}
+	}
+	seen := map[int]int{}
+	for i, e := range w.log {
+		if e.kind != "cb" {
+			continue
+		}
+		seen[e.id]++
+		verif.Assert(seen[e.id] == 1, "a send callback runs at most once")
+		own := false
+		for _, f := range w.log[:i] {
+			if f.kind == "flush" {
+				for _, p := range f.batch {
+					if p.Data == datas[e.id] {
+						own = true
+					}
+				}
+			}
+		}
+		verif.Assert(own, "a send callback runs only after the flush event of the batch containing its packet")
+	}
+	verif.Assert(seen[1] == 1, "the callback of a delivered packet runs")
+}
